@@ -1692,8 +1692,8 @@ func MainRace() {
 	// GORACE is read by the runtime at start-up, so re-execute once with exitcode=0 appended.
 	if g := os.Getenv("GORACE"); g != "" && !strings.Contains(g, "exitcode=") {
 		if exe, err := os.Executable(); err == nil {
-			env := append(os.Environ(), "GORACE="+g+" exitcode=0")
-			if err := syscall.Exec(exe, os.Args, env); err != nil {
+			os.Setenv("GORACE", g+" exitcode=0")
+			if err := syscall.Exec(exe, os.Args, os.Environ()); err != nil {
 				fmt.Fprintln(os.Stderr, "c13race: re-exec with exitcode=0 failed:", err)
 			}
 		}
